@@ -88,6 +88,8 @@ def decode_op(weights):
             return ['remove', d[0], d[1]]
         if name in ('delete', 'delete_now', 'bad_delete'):
             return [name, d[0]]
+        if name == 'arm':
+            return ['arm', d[0], d[1] % 3, d[2], d[3]]
         return [name]
     return dec, len(table)
 
@@ -141,6 +143,10 @@ class Run:
         self.failed_frames = 0
         self.step_ix = -1
         self.frame_obs = None
+        self.in_process = False
+        self.cb_stack = []
+        self.frame_reactions = 0
+        self.nested_deferred = []   # ids deferred-deleted by a callback while the current frame applies deletions
         self._install_sentinel()
 
     # ---- helpers --------------------------------------------------------------------------------------
@@ -355,6 +361,14 @@ class Run:
         if e is None:
             return self.noop()
         self._delete(e)
+        if 'deletion' in self.checks and ent_ix % 2:
+            # odd operands also arm a reaction on one of the entity's on_remove listeners (see op_arm)
+            cands = [c for c in self.attached.get(e, {}).values() if self.maps(c, 'on_remove')]
+            if cands:
+                comp = cands[(ent_ix // 2) % len(cands)]
+                action, sel = (ent_ix // 2) % 3, ent_ix // 4
+                comp.__dict__['_react'] = lambda c, kind, args: self.react(c, kind, args, action, sel, sel)
+                self.flags['armed'] += 1
 
     def op_bad_delete(self, ent_ix):
         """deferred deletion of an id that owns nothing (C05 only): process must raise KeyError, once."""
@@ -403,13 +417,84 @@ class Run:
         self.detached.extend(row.values())
         self.owe([('on_remove', c, e) for c in row.values() if self.maps(c, 'on_remove')])
 
+    def op_arm(self, comp_sel, action, ent_sel, cls_sel):
+        """Arm a one-shot reaction on an attached handler component: when its on_remove runs INSIDE process()
+        (deferred deletion being applied) it performs another World operation on another entity."""
+        cands = [c for e, row in self.attached.items() for c in row.values()
+                 if self.maps(c, 'on_remove') and self.is_pending(e) and '_react' not in c.__dict__]
+        if not cands or comp_sel >= 12:
+            cands = [c for row in self.attached.values() for c in row.values() if self.maps(c, 'on_remove')]
+        if not cands:
+            return self.noop()
+        comp = cands[comp_sel % len(cands)]
+        comp.__dict__['_react'] = lambda c, kind, args: self.react(c, kind, args, action, ent_sel, cls_sel)
+        self.flags['armed'] += 1
+
+    def react(self, comp, kind, args, action, ent_sel, cls_sel):
+        if kind != 'on_remove' or not self.in_process:
+            return                      # stays armed
+        del comp.__dict__['_react']
+        me = args[0] if args else None
+        w = self.world
+        # entities whose own removal is in progress further up the call stack are only ever deferred-deleted
+        # again (action 0); stripping or immediately deleting an entity in the middle of its own deletion is
+        # not a history the property speaks about ("whatever happened to that entity in between")
+        busy = self.cb_stack + [me]
+        cands = [k for k in self.known_ids if not (k == me) and w.get_components(k)
+                 and (action == 0 or not any(k == b for b in busy))]
+        if not cands:
+            self.excluded['reaction_without_target'] += 1
+            return
+        y = cands[ent_sel % len(cands)]
+        self.flags['reaction_in_process'] += 1
+        self.frame_reactions += 1
+        self.cb_stack.append(me)
+        try:
+            self._react(action, y, cls_sel)
+        finally:
+            self.cb_stack.pop()
+
+    def _react(self, action, y, cls_sel):
+        w = self.world
+        if action == 0:
+            w.delete_entity(y)
+            if not self.is_pending(y) and not any(n == y for n in self.nested_deferred):
+                self.nested_deferred.append(y)
+            self.flags['reaction:delete'] += 1
+        elif action == 1:
+            w.delete_entity(y, immediate=True)
+            row = self.attached.pop(y, None) or {}
+            self.detached.extend(row.values())
+            self.nested_deferred = [n for n in self.nested_deferred if not (n == y)]
+            self.flags['reaction:delete_now'] += 1
+            if self.is_pending(y):
+                self.flags['reaction:delete_now_of_pending'] += 1
+        else:
+            comps = w.get_components(y)
+            c = comps[cls_sel % len(comps)]
+            got = w.remove_component(y, type(c))
+            row = self.attached.get(y, {})
+            if got is not None and row.get(type(got)) is got:
+                del row[type(got)]
+                if not row:
+                    self.attached.pop(y, None)
+                    self.nested_deferred = [n for n in self.nested_deferred if not (n == y)]
+                self.detached.append(got)
+            self.flags['reaction:remove'] += 1
+
     def op_process(self):
         self.frame_obs = None
+        self.nested_deferred = []
+        self.frame_reactions = 0
         pend = [p for p in self.pending]
         n_pending_rows = sum(1 for p in pend if self.owns(p))
         legit_failure = bool(self.bad_pending)
         try:
-            _, used = with_budget(PROCESS_BUDGET, self.world.process, 1)
+            self.in_process = True
+            try:
+                _, used = with_budget(PROCESS_BUDGET, self.world.process, 1)
+            finally:
+                self.in_process = False
         except StepBudgetExceeded as exc:
             if 'deletion' in self.checks:
                 self.viol('process_does_not_terminate', error=str(exc))
@@ -422,6 +507,11 @@ class Run:
                 if not isinstance(exc, KeyError):
                     self.viol('process_raised_other_than_KeyError', exception=repr(exc))
                 self.flags['failed_frame'] += 1
+                if self.frame_reactions:
+                    # which deletions (incl. those issued by callbacks) were applied before the failure is not
+                    # modelled: stop judging this history (counted)
+                    self.flags['failed_frame_with_reactions'] += 1
+                    raise Abort('failed frame with reactions')
                 self.recover_after_failed_frame(len(self.bad_pending))
                 return
             self.on_op_exception(exc)
@@ -441,6 +531,20 @@ class Run:
         self.pending = []
         self.flags['process'] += 1
         self.owe(group)
+        # deletions requested by callbacks while this frame was applying deletions: "the next process()" may be
+        # this one or the following one - follow the implementation, then hold it to its choice
+        for y in self.nested_deferred:
+            if self.q(self.world.get_components, y):
+                self.pending.append(y)
+                self.flags['nested_delete_left_for_next_frame'] += 1
+                if 'deletion' in self.checks and (self.q(self.world.entity_exists, y)
+                                                  or any(x == y for x in self.q(lambda: self.world.entities))):
+                    self.viol('entity_deleted_from_a_callback_during_process_exists_afterwards', entity=repr(y))
+            else:
+                row = self.attached.pop(y, None) or {}
+                self.detached.extend(row.values())
+                self.flags['nested_delete_applied_same_frame'] += 1
+        self.nested_deferred = []
         if 'deletion' in self.checks:
             self.check_frame(pend, n_pending_rows, group)
 
@@ -657,7 +761,7 @@ class Run:
     def sentinel_frame(self, dt):
         """Called by the sentinel processor, i.e. at the moment the first processor of the frame runs."""
         obs = {'log_len': len(self.log), 'left': {}}
-        for p in self.pending:
+        for p in list(self.pending):
             try:
                 obs['left'][repr(p)] = [repr(c) for c in self.world.get_components(p)]
             except Exception as exc:        # judged by check_frame
@@ -671,7 +775,7 @@ class Run:
         left = {k: v for k, v in obs['left'].items() if v}
         if left:
             self.viol('deleted_entity_still_has_components_when_processors_run', left=left)
-        if self.enabled:
+        if self.enabled and not self.frame_reactions:
             # on_remove of every handler component of the deleted entities must already be in the log
             seg = [r for r in self.log[:obs['log_len']] if r[0] == 'on_remove']
             have = collections.Counter(id(r) for (k, r, a) in seg[-len(group):]) if group else collections.Counter()
